@@ -315,3 +315,53 @@ class Fs:
                 if i and not (self.has_csum and i == 0):
                     ents.append((name, i, ft))
         return ents
+
+
+# ---- whole-tree view (independent reading), used by the tool-level oracles
+import hashlib as _hl
+
+
+def tree(fs, with_times=False, max_nodes=200000):
+    """path -> tuple(kind, mode, uid, gid, size_or_rdev, links, digest/target[, mtime]); raises FormatError"""
+    out = {}
+    seen_dirs = set()
+    stack = [("/", 2)]
+    n = 0
+    while stack:
+        path, ino = stack.pop()
+        n += 1
+        if n > max_nodes:
+            raise FormatError("tree too large / cyclic")
+        i = fs.inode(ino)
+        fmt = i["mode"] & 0xF000
+        ent = None
+        if fmt == 0x4000:
+            if ino in seen_dirs:
+                raise FormatError("directory loop at inode %d" % ino)
+            seen_dirs.add(ino)
+            ents = fs.dir_entries(ino, i)
+            if ents is None:
+                raise FormatError("inline directory not supported by this reader")
+            names = []
+            for name, child, ft in ents:
+                if name in (b".", b".."):
+                    continue
+                names.append(name)
+                stack.append((path.rstrip("/") + "/" + name.decode("latin1"), child))
+            ent = ("dir", i["mode"] & 0o7777, i["uid"], i["gid"], 0, i["links"], _hl.sha256(b"\0".join(sorted(names))).hexdigest()[:16])
+        elif fmt == 0x8000:
+            data = fs.file_data(ino, i)
+            if data is None:
+                raise FormatError("inline data not supported by this reader")
+            ent = ("file", i["mode"] & 0o7777, i["uid"], i["gid"], i["size"], i["links"], _hl.sha256(data).hexdigest()[:16])
+        elif fmt == 0xA000:
+            data = fs.file_data(ino, i)
+            ent = ("symlink", i["mode"] & 0o7777, i["uid"], i["gid"], i["size"], i["links"], (data or b"").decode("latin1"))
+        else:
+            ib = struct.unpack_from("<II", i["i_block"], 0)
+            kind = {0x1000: "fifo", 0x2000: "chr", 0x6000: "blk", 0xC000: "sock"}.get(fmt, "other%x" % fmt)
+            ent = (kind, i["mode"] & 0o7777, i["uid"], i["gid"], ib[0] or ib[1], i["links"], "")
+        if with_times:
+            ent = ent + (i["mtime"],)
+        out[path] = ent
+    return out
